@@ -315,3 +315,49 @@ harness! {
 // `#[kani::proof_for_contract]`) is not present: `harness!` puts `#[kani::proof]` on the generated `k()`
 // and Kani rejects `proof` + `proof_for_contract` on one function; a hand-written proof function would
 // not be discovered by the runner.  `c07_from_u32` (kind=complete, every u32) states the same postcondition.
+
+// ---------------------------------------------------------------------------------------------
+// Function contracts (Kani's modular route): thin monomorphic wrappers around the konst functions
+// carry the contract; `proof_for_contract` discharges it over the full input domain.
+
+#[cfg_attr(kani, kani::ensures(|r: &Option<char>| *r == char::from_u32(n)))]
+pub fn w_from_u32(n: u32) -> Option<char> {
+    konst::chr::from_u32(n)
+}
+
+contract_harness! {
+    /// kind=contract tier=quick contract_of=konst::chr::from_u32 bound="none: every u32"
+    fn c07_contract_from_u32(s) for w_from_u32 {
+        let n = s.u32();
+        let r = w_from_u32(n);
+        // native replay has no contract instrumentation: restate the postcondition
+        #[cfg(not(kani))]
+        chk!(s, r == char::from_u32(n), "C07.contract.from_u32.ensures");
+        let _ = r;
+    }
+}
+
+fn enc_eq_std(c: char, e: &konst::chr::Utf8Encoded) -> bool {
+    let mut tmp = [0u8; 4];
+    let st = c.encode_utf8(&mut tmp).as_bytes();
+    let b = e.as_bytes();
+    b.len() == st.len() && b.len() == c.len_utf8()
+        && (b.len() < 1 || b[0] == st[0]) && (b.len() < 2 || b[1] == st[1])
+        && (b.len() < 3 || b[2] == st[2]) && (b.len() < 4 || b[3] == st[3])
+}
+
+#[cfg_attr(kani, kani::ensures(|r: &konst::chr::Utf8Encoded| enc_eq_std(c, r)))]
+pub fn w_encode_utf8(c: char) -> konst::chr::Utf8Encoded {
+    konst::chr::encode_utf8(c)
+}
+
+contract_harness! {
+    /// kind=contract tier=quick contract_of=konst::chr::encode_utf8 bound="none: every char"
+    fn c07_contract_encode_utf8(s) for w_encode_utf8 {
+        let c = s.char();
+        let r = w_encode_utf8(c);
+        #[cfg(not(kani))]
+        chk!(s, enc_eq_std(c, &r), "C07.contract.encode_utf8.ensures");
+        let _ = r;
+    }
+}
